@@ -70,15 +70,21 @@ Proof.
   rewrite Hd at 1. rewrite Hn at 2. ring.
 Qed.
 
+Lemma qguard_Qeq q : (qguard q == q)%Q.
+Proof. unfold qguard. destruct (_ <? _)%Z; [reflexivity | apply qnorm_Qeq]. Qed.
+
+Lemma Q2R_qguard q : Q2R (qguard q) = Q2R q.
+Proof. apply Qeq_eqR. apply qguard_Qeq. Qed.
+
 Lemma NumQR : Num_R Q R QR NumQ NumR.
 Proof.
   unfold NumQ, NumR. constructor; unfold QR.
   - apply RMicromega.Q2R_0.
   - apply RMicromega.Q2R_1.
-  - intros a a' <- b b' <-. apply Q2R_plus.
-  - intros a a' <- b b' <-. apply Q2R_minus.
-  - intros a a' <- b b' <-. apply Q2R_mult.
-  - intros a a' <- b b' <-. apply Q2R_div'.
+  - intros a a' <- b b' <-. rewrite Q2R_qguard. apply Q2R_plus.
+  - intros a a' <- b b' <-. rewrite Q2R_qguard. apply Q2R_minus.
+  - intros a a' <- b b' <-. rewrite Q2R_qguard. apply Q2R_mult.
+  - intros a a' <- b b' <-. rewrite Q2R_qguard. apply Q2R_div'.
   - intros a a' <- b b' <-. apply bool_R_eq. unfold Rltb.
     destruct (Rlt_dec (Q2R a) (Q2R b)) as [L|L].
     + apply Rlt_Qlt in L. destruct (Qle_bool b a) eqn:E; [|reflexivity].
